@@ -902,6 +902,14 @@ pub enum ConstsError {
         "unable to add consts for policy {computation_id}. state must be Validate, SendingConsts or SendingConstsCompleted but is {state}"
     )]
     InvalidState { state: String, computation_id: Uuid },
+    #[error(
+        "unable to add consts for policy {computation_id}. party {from} is not one of its {participants} participants"
+    )]
+    UnknownParty {
+        from: usize,
+        participants: usize,
+        computation_id: Uuid,
+    },
 }
 
 impl<B, C> PolicyState<B, C>
@@ -915,6 +923,24 @@ where
         consts_request: ConstsRequest,
         ret: Ret<ConstsError>,
     ) -> ControlFlow<(), Self> {
+        // Constants are only accepted from a participant of the scheduled policy. Constants
+        // stored under any other index would count towards the number of parties the program
+        // waits for and start the compilation without the constants of a real participant.
+        if let PolicyStateKind::Validated { policy, .. }
+        | PolicyStateKind::SendingConsts { policy, .. }
+        | PolicyStateKind::SendingConstsCompleted { policy, .. } = &self.state_kind
+            && consts_request.from >= policy.participants.len()
+        {
+            ret_err(
+                ret,
+                ConstsError::UnknownParty {
+                    from: consts_request.from,
+                    participants: policy.participants.len(),
+                    computation_id: consts_request.computation_id,
+                },
+            );
+            return ControlFlow::Continue(self);
+        }
         match mem::take(&mut self.state_kind) {
             state @ (PolicyStateKind::Validated { .. } | PolicyStateKind::SendingConsts { .. }) => {
                 self.state_kind = state;
